@@ -41,6 +41,7 @@ def check(repo, tier="quick"):
     rule_c(repo, res, m, meth, where)
     rule_d(repo, res)
     rule_e(repo, res, m, meth, where)
+    rule_defaults(res, meth, where)
     from .. import lints as _lints
 
     _lints.rule(repo, res, "C21.h", ['bitstream.serdes', 'fixeddict', 'bitstream.vc2_fixeddicts'])
@@ -56,6 +57,32 @@ def check(repo, tier="quick"):
     ]
     res.trusted = ["CPython ast", "MRO of MonitoredSerialiser/MonitoredDeserialiser: MonitoredMixin first"]
     return res
+
+
+def rule_defaults(res, meth, where):
+    """serialisation fails when a needed value is missing and no default exists: in Serialiser._get_context_value the
+    handler of the lookup failure returns only a *subscript by the target* of the defaults (which raises when the
+    target has no default) or re-raises; a dict.get() there turns a missing value into None, which bool() writes as 0"""
+    fn = meth["Serialiser"].get("_get_context_value")
+    key = "Serialiser._get_context_value"
+    if fn is None:
+        res.check(False, "C21.b", "%s:default-fallback" % key, where, "Serialiser no longer overrides _get_context_value", by="")
+        return
+    tgt = fn.args.args[1].arg
+    handlers = [h for t in ast.walk(fn) if isinstance(t, ast.Try) for h in t.handlers]
+    ok = len(handlers) == 1
+    detail = "expected one except clause around the inherited lookup"
+    if ok:
+        h = handlers[0]
+        rets = [r for r in ast.walk(h) if isinstance(r, ast.Return)]
+        soft = [r for r in rets if not (isinstance(r.value, ast.Subscript) and dotted(r.value.slice) == tgt)]
+        reraises = [r for r in ast.walk(h) if isinstance(r, ast.Raise) and r.exc is None]
+        falls = not isinstance(h.body[-1], (ast.Raise, ast.Return, ast.If))
+        if isinstance(h.body[-1], ast.If):
+            falls = not h.body[-1].orelse or not isinstance(h.body[-1].orelse[-1], (ast.Raise, ast.Return)) or not isinstance(h.body[-1].body[-1], (ast.Raise, ast.Return))
+        ok = not soft and bool(reraises) and not falls
+        detail = "the fallback returns %s / re-raises %d time(s)%s: a target that is missing from the description *and* from the defaults must propagate the original error, not become a value" % ([short(r, 50) for r in soft] or "only defaults[...][target]", len(reraises), ", and can fall off its end (returning None)" if falls else "")
+    res.check(ok, "C21.b", "%s:default-fallback-raises-when-no-default" % key, "%s:%s" % (where, key), detail, by="return <defaults>[...][target] or bare raise")
 
 
 def abstract_prims(meth):
